@@ -80,7 +80,9 @@ func VerifC23JSONOrder() {
 	if zzverif.Param("NOEOL") == 1 {
 		content = content[:len(content)-1] // last line without terminator
 	}
-	jobs := 1
+	// tail=true: one job per line; otherwise batches of 64 lines (N > 64: several jobs, so that a
+	// LATER batch of several lines can be finished before an earlier one and has to wait in the queue)
+	jobs := (n + 63) / 64
 	if tail {
 		jobs = n
 	}
